@@ -12,7 +12,7 @@ RULE = ('cases = generated DSG spec small enough for full reference enumeration 
         'their architectures equal the reference full set (R-SEL x R-CONN x discrete DV values) exactly once each; '
         'get_n_valid_designs == rows, get_n_design_space == product of option counts, imputation ratio == quotient; '
         'non-trivial = reference >= 3 architectures and >= 1 conditionally active variable; distinct by sha1(spec)')
-BUDGET = {'quick': 100, 'thorough': 2500}
+BUDGET = {'quick': 200, 'thorough': 4000}
 
 
 @st.composite
